@@ -9,12 +9,13 @@ ref_network(cdesc, w, w_res)     -> reference tableau network at angular frequen
 from __future__ import annotations
 import math, cmath
 from .netdesc import cx
+from . import netdesc as _nd
 from .ref import fourier
 
 
 def lib_component(c):
     from CircuitCalculator.Circuit import components as ccp
-    args = {k: (complex(*v) if isinstance(v, (list, tuple)) else v) for k, v in c.get('args', {}).items()}
+    args = {k: _nd.typed(complex(*v) if isinstance(v, (list, tuple)) else v) for k, v in c.get('args', {}).items()}
     f = getattr(ccp, c['ctor'])
     if c['ctor'] == 'ground':
         return f(id=c['id'], nodes=tuple(c['nodes']))
@@ -23,7 +24,11 @@ def lib_component(c):
 
 def to_lib(cdesc):
     from CircuitCalculator.Circuit.circuit import Circuit
-    return Circuit([lib_component(c) for c in cdesc['components']])
+    _nd._NUMBER_TYPE[0] = cdesc.get('number_type')
+    try:
+        return Circuit([lib_component(c) for c in cdesc['components']])
+    finally:
+        _nd._NUMBER_TYPE[0] = None
 
 
 def ground_of(cdesc):
